@@ -585,6 +585,75 @@ func concatDFA(a, b *DFA) *DFA {
 	return minimize(d)
 }
 
+// plusDFA accepts the concatenations of one or more strings of L(a).
+func plusDFA(a *DFA) *DFA {
+	k := len(a.delta[0])
+	enc := func(s []int) (string, []int) {
+		sort.Ints(s)
+		var out []int
+		var bld strings.Builder
+		last := -1
+		for _, v := range s {
+			if v != last {
+				out = append(out, v)
+				bld.WriteString(strconv.Itoa(v))
+				bld.WriteByte(',')
+				last = v
+			}
+		}
+		return bld.String(), out
+	}
+	idx := map[string]int{}
+	var sets [][]int
+	add := func(s []int) int {
+		// after a complete string of L the next one may begin
+		for _, q := range s {
+			if a.acc[q] {
+				s = append(s, a.init)
+				break
+			}
+		}
+		key, set := enc(s)
+		if i, ok := idx[key]; ok {
+			return i
+		}
+		idx[key] = len(sets)
+		sets = append(sets, set)
+		return len(sets) - 1
+	}
+	d := &DFA{}
+	d.init = add([]int{a.init})
+	for i := 0; i < len(sets); i++ {
+		acc := false
+		for _, q := range sets[i] {
+			if a.acc[q] {
+				acc = true
+			}
+		}
+		d.acc = append(d.acc, acc)
+		row := make([]int32, k)
+		for c := 0; c < k; c++ {
+			var nq []int
+			for _, q := range sets[i] {
+				nq = append(nq, int(a.delta[q][c]))
+			}
+			row[c] = int32(add(nq))
+		}
+		d.delta = append(d.delta, row)
+	}
+	return minimize(d)
+}
+
+// epsilonDFA accepts the empty string only.
+func epsilonDFA(k int) *DFA {
+	sink := make([]int32, k)
+	first := make([]int32, k)
+	for c := range first {
+		first[c], sink[c] = 1, 1
+	}
+	return &DFA{init: 0, acc: []bool{true, false}, delta: [][]int32{first, sink}}
+}
+
 // prefixesDFA accepts every prefix of a string of L(a).
 func prefixesDFA(a *DFA) *DFA {
 	n := a.n()
@@ -711,6 +780,16 @@ func (p *Prog) collectLeaves(e ast.Expr, out map[string]bool, needLower *bool, s
 			return nil
 		case "lowerpre":
 			*needLower = true
+		case "lquot", "rquot":
+			// quotient of a language by an ASCII literal: lquot(L, "w") = { s : w s in L },
+			// rquot(L, "w") = { s : s w in L }
+			if len(x.Args) != 2 {
+				return fmt.Errorf("%s needs a language and a literal", fn)
+			}
+			if w, err := litString(x.Args[1]); err != nil || !isASCII(w) || w == "" {
+				return fmt.Errorf("%s needs a non-empty ASCII literal", fn)
+			}
+			return p.collectLeaves(x.Args[0], out, needLower, seen)
 		}
 		for _, a := range x.Args {
 			if err := p.collectLeaves(a, out, needLower, seen); err != nil {
@@ -722,6 +801,37 @@ func (p *Prog) collectLeaves(e ast.Expr, out map[string]bool, needLower *bool, s
 		return p.collectLeaves(x.X, out, needLower, seen)
 	}
 	return fmt.Errorf("bad language expression")
+}
+
+func isASCII(s string) bool {
+	for i := 0; i < len(s); i++ {
+		if s[i] >= 0x80 {
+			return false
+		}
+	}
+	return true
+}
+
+// leftQuotient: { s : w s in L(d) }: the same automaton started after reading w.
+func leftQuotient(d *DFA, w string, al *Alphabet) *DFA {
+	q := d.init
+	for _, r := range w {
+		q = int(d.delta[q][al.classOf(r)])
+	}
+	return &DFA{init: q, acc: d.acc, delta: d.delta}
+}
+
+// rightQuotient: { s : s w in L(d) }: a state accepts when reading w from it ends in acceptance.
+func rightQuotient(d *DFA, w string, al *Alphabet) *DFA {
+	acc := make([]bool, len(d.acc))
+	for q := range d.acc {
+		t := q
+		for _, r := range w {
+			t = int(d.delta[t][al.classOf(r)])
+		}
+		acc[q] = d.acc[t]
+	}
+	return &DFA{init: d.init, acc: acc, delta: d.delta}
 }
 
 func regexpQuote(s string) string {
@@ -792,6 +902,17 @@ func (le *langEnv) dfa(e ast.Expr) (*DFA, error) {
 	case *ast.CallExpr:
 		fn := x.Fun.(*ast.Ident).Name
 		var args []*DFA
+		if fn == "lquot" || fn == "rquot" {
+			d, err := le.dfa(x.Args[0])
+			if err != nil {
+				return nil, err
+			}
+			w, _ := litString(x.Args[1])
+			if fn == "lquot" {
+				return leftQuotient(d, w, le.al), nil
+			}
+			return rightQuotient(d, w, le.al), nil
+		}
 		if fn != "regex" && fn != "lit" {
 			for _, a := range x.Args {
 				d, err := le.dfa(a)
@@ -845,6 +966,10 @@ func (le *langEnv) dfa(e ast.Expr) (*DFA, error) {
 			return d, nil
 		case "prefixes":
 			return prefixesDFA(args[0]), nil
+		case "plus":
+			return plusDFA(args[0]), nil
+		case "star":
+			return product(plusDFA(args[0]), epsilonDFA(len(args[0].delta[0])), func(a, b bool) bool { return a || b }), nil
 		case "lowerpre":
 			return lowerPreimage(args[0], le.al), nil
 		}
@@ -994,6 +1119,119 @@ func charSeqAxiom(name, pattern string) string {
 		tests = append(tests, sOr(ds...))
 	}
 	return fmt.Sprintf("(assert (forall (%s) (! (= (inlang_%s %s) %s) :pattern ((inlang_%s %s)))))", strings.Join(vars, " "), name, term, sAnd(tests...), name, term)
+}
+
+// byteClassTest renders membership of a byte in a character class as a test on the byte. The class
+// must be ASCII-only, or contain every code point from U+0080 up (then a byte >= 0x80, which
+// belongs to a non-ASCII code point or decodes to U+FFFD, passes): assumption U1.
+func byteClassTest(cl []rune, v string) (string, bool) {
+	var ds []string
+	coASCII := false
+	for k := 0; k+1 < len(cl); k += 2 {
+		lo, hi := cl[k], cl[k+1]
+		if hi >= 0x80 {
+			if hi != 0x10FFFF || lo > 0x80 {
+				return "", false
+			}
+			coASCII = true
+			hi = 0x7f
+			if lo > hi {
+				continue
+			}
+		}
+		switch {
+		case lo == hi:
+			ds = append(ds, fmt.Sprintf("(= %s %d)", v, lo))
+		case lo == 0:
+			// array elements model bytes: never negative
+			ds = append(ds, fmt.Sprintf("(<= %s %d)", v, hi))
+		default:
+			ds = append(ds, fmt.Sprintf("(and (<= %d %s) (<= %s %d))", lo, v, v, hi))
+		}
+	}
+	if coASCII {
+		ds = append(ds, fmt.Sprintf("(>= %s 128)", v))
+	}
+	return sOr(ds...), true
+}
+
+func classOfItem(it *syntax.Regexp) ([]rune, bool) {
+	switch it.Op {
+	case syntax.OpLiteral:
+		if it.Flags&syntax.FoldCase != 0 || len(it.Rune) != 1 {
+			return nil, false
+		}
+		return []rune{it.Rune[0], it.Rune[0]}, true
+	case syntax.OpCharClass:
+		return it.Rune, true
+	case syntax.OpAnyChar:
+		return []rune{0, 0x10FFFF}, true
+	}
+	return nil, false
+}
+
+// classShapeAxiom: bridging facts between byte-level views and three shapes of language, read off
+// the pattern that defines the language (engine-generated; in the trusted base):
+//
+//	^C*$ / ^C+$    every byte of the view passes the class test (and the view is not empty)
+//	(?s)^.*C$      the view is not empty and its last byte passes
+//	(?s)^C.*$      the view is not empty and its first byte passes
+//
+// C is ASCII-only or contains all non-ASCII code points, so that the byte test and the code-point
+// test agree whatever the UTF-8 validity of the bytes.
+func classShapeAxiom(name, pattern string) string {
+	re, err := syntax.Parse(pattern, syntax.Perl)
+	if err != nil {
+		return ""
+	}
+	re = re.Simplify()
+	if re.Op != syntax.OpConcat || len(re.Sub) < 3 || re.Sub[0].Op != syntax.OpBeginText || re.Sub[len(re.Sub)-1].Op != syntax.OpEndText {
+		return ""
+	}
+	items := re.Sub[1 : len(re.Sub)-1]
+	isAnyStar := func(it *syntax.Regexp) bool {
+		return it.Op == syntax.OpStar && it.Sub[0].Op == syntax.OpAnyChar
+	}
+	view := "(bs_val b o l)"
+	hdr := "(assert (forall ((b (Array Int Int)) (o Int) (l Int)) (! (=> (>= l 0) (= (inlang_" + name + " " + view + ") "
+	tail := ")) :pattern ((inlang_" + name + " " + view + ")))))"
+	switch {
+	case len(items) == 1 && (items[0].Op == syntax.OpStar || items[0].Op == syntax.OpPlus):
+		cl, ok := classOfItem(items[0].Sub[0])
+		if !ok {
+			return ""
+		}
+		test, ok := byteClassTest(cl, "(select b kk)")
+		if !ok {
+			return ""
+		}
+		min := "0"
+		if items[0].Op == syntax.OpPlus {
+			min = "1"
+		}
+		return hdr + fmt.Sprintf("(and (>= l %s) (forall ((kk Int)) (=> (and (<= o kk) (< kk (+ o l))) %s)))", min, test) + tail
+	case len(items) == 2 && isAnyStar(items[0]):
+		cl, ok := classOfItem(items[1])
+		if !ok {
+			return ""
+		}
+		test, ok := byteClassTest(cl, "(select b (- (+ o l) 1))")
+		if !ok {
+			return ""
+		}
+		return hdr + "(and (>= l 1) " + test + ")" + tail
+	case len(items) == 2 && isAnyStar(items[1]):
+		cl, ok := classOfItem(items[0])
+		if !ok {
+			return ""
+		}
+		test, ok := byteClassTest(cl, "(select b o)")
+		if !ok {
+			return ""
+		}
+		return hdr + "(and (>= l 1) " + test + ")" + tail
+	}
+	return ""
 }
 
 // declareRemoval registers the uninterpreted function rm_<var> and, for every "removal" directive
